@@ -76,7 +76,15 @@ def c19_flow(chk, cases, proof, max_report=3):
                                      "rerun": ".build/target/debug/c19 --graph '%s'" % spec})
     broken = []
     if mism:
-        broken.append("correspondence Algo: model and implementation differ on %d case(s), first: %s" % (len(mism), cases[mism[0]]["in"]))
+        first = cases[mism[0]]
+        model = None
+        if first.get("show"):
+            try:
+                model = gv.coq_eval(PROP + "_show", REQ_RUN, [first["show"]])[0]
+            except RuntimeError:
+                model = None
+        broken.append("correspondence Algo: model and implementation differ on %d case(s), first: %s %s impl=%s model=%s"
+                      % (len(mism), first["k"], first["in"], first.get("impl"), model))
     if disagree:
         c = cases[disagree[0]]
         broken.append("the harness's brute-force verdict and the Coq certificate disagree on %d case(s), first: %s %s (coq=%s)"
@@ -108,7 +116,7 @@ def _run(tier, seed, extra=None):
     chk = gv.Check(PROP, tier, seed, level="proof")
     _merge_fragment(chk)
     proof = gv.proof_status(PROP, REQ_PROPS)
-    ngraphs = 60 if tier == "quick" else 700
+    ngraphs = 40 if tier == "quick" else 400
     ok, out, binp = gv.cargo_build("c19")
     if not ok:
         chk.violation("build", {"what": "the harness no longer builds against /repo's working tree", "log": out[-3000:],
